@@ -103,6 +103,49 @@ func checkAEAD(t *rapid.T, c *aeadcase.Case, pt, ad []byte) {
 	}
 }
 
+// afterFailures: the round-trip clause holds for every call, also for the call after one that
+// failed. The same primitive object is given calls that must fail (a flipped bit in each region the
+// caller names, a truncation, other associated data, garbage) and must then still decrypt the
+// genuine ciphertext and round-trip a new encryption. (Added after seeded change C01g: an error of
+// the key-encryption AEAD stuck to the envelope object.) What the failing calls return is C02's
+// business; here they only have to leave the object as it was.
+func afterFailures(t *rapid.T, desc string, p tink.AEAD, ct, ad, pt []byte, regions [][2]int) {
+	bad := [][]byte{}
+	for i, reg := range regions {
+		if reg[1] > reg[0] && reg[1] <= len(ct) {
+			c := bytes.Clone(ct)
+			pos := rapid.IntRange(reg[0], reg[1]-1).Draw(t, fmt.Sprintf("fail_region%d_byte", i))
+			c[pos] ^= 1 << rapid.IntRange(0, 7).Draw(t, "fail_bit")
+			bad = append(bad, c)
+		}
+	}
+	if len(ct) > 0 {
+		bad = append(bad, bytes.Clone(ct[:rapid.IntRange(0, len(ct)-1).Draw(t, "fail_cut")]))
+	}
+	bad = append(bad, gen.Bytes(t, "fail_garbage", 64))
+	failed := 0
+	for _, c := range bad {
+		if _, err := p.Decrypt(c, ad); err != nil {
+			failed++
+		}
+	}
+	if _, err := p.Decrypt(ct, append(bytes.Clone(ad), 0x5a)); err != nil {
+		failed++
+	}
+	evid.Add("failed_calls_before_reuse", int64(failed))
+	got, err := p.Decrypt(ct, ad)
+	if err != nil || !bytes.Equal(got, pt) {
+		t.Fatalf("%s: after %d failed Decrypt calls on the same object, the genuine ciphertext no longer decrypts: %s, %v", desc, failed, gen.Hex(got), err)
+	}
+	ct2, err := p.Encrypt(pt, ad)
+	if err != nil {
+		t.Fatalf("%s: after %d failed Decrypt calls on the same object, Encrypt fails: %v", desc, failed, err)
+	}
+	if got, err := p.Decrypt(ct2, ad); err != nil || !bytes.Equal(got, pt) {
+		t.Fatalf("%s: after %d failed Decrypt calls on the same object, a new encryption does not round-trip: %v", desc, failed, err)
+	}
+}
+
 func TestAEAD(t *testing.T) {
 	rapid.Check(t, func(rt *rapid.T) {
 		detrand.Seed(rapid.Uint64().Draw(rt, "entropy"))
@@ -121,6 +164,10 @@ func TestAEAD(t *testing.T) {
 			evid.Add("shared_record_cases", 1)
 		}
 		checkAEAD(rt, c, pt, ad)
+		if ct, err := c.P.Encrypt(pt, ad); err == nil {
+			pl := len(c.Prefix())
+			afterFailures(rt, c.String(), c.P, ct, ad, pt, [][2]int{{0, pl}, {pl, pl + c.NonceLen}, {pl + c.NonceLen, len(ct) - c.TagSize}, {len(ct) - c.TagSize, len(ct)}})
+		}
 		class := fmt.Sprintf("%s/pt=%s/%s", c.Class(), gen.LenClass(len(pt)), adClass(ad))
 		evid.Case(class, len(pt) >= 1, evid.NewH().S(c.String()).B(pt).B(ad).Sum(), func() any {
 			return map[string]any{"case": c.String(), "pt": gen.Hex(pt), "ad": gen.Hex(ad)}
@@ -451,6 +498,8 @@ func TestEnvelope(t *testing.T) {
 				rt.Fatalf("%s: Tink cannot decrypt an envelope assembled by the independent implementation (dek key %x): %s, %v", desc, k2, gen.Hex(got), err)
 			}
 		}
+		// the same envelope object after failed calls: length field, encrypted DEK, payload
+		afterFailures(rt, desc, env, ct, ad, pt, [][2]int{{0, 4}, {4, 4 + n}, {4 + n, len(ct)}})
 		evid.Case(fmt.Sprintf("envelope/%s/%s/%s/pt=%s", api, d.name, kekKind, gen.LenClass(len(pt))), len(pt) >= 1, evid.NewH().S(api).S(d.name).S(kekKind).B(kekKey).B(pt).B(ad).Sum(), func() any {
 			return map[string]any{"api": api, "dek": d.name, "kek": kekKind, "pt": gen.Hex(pt), "ad": gen.Hex(ad), "enc_dek_len": n}
 		})
